@@ -224,6 +224,12 @@ Proof.
     + apply IH; exact Hn.
 Qed.
 
+Lemma Forall2_weaken {A B} (R R' : A -> B -> Prop) l1 l2 :
+  (forall a b, R a b -> R' a b) -> Forall2 R l1 l2 -> Forall2 R' l1 l2.
+Proof.
+  intros Himp HF. induction HF as [|x y t1 t2 Hxy Ht IH]; constructor; auto.
+Qed.
+
 (* ------------------------------------------------------------------ *)
 (* Truncated remainder on the ranges the deque uses                   *)
 (* ------------------------------------------------------------------ *)
@@ -897,7 +903,7 @@ Section DequeProofs.
         pose proof (idx_range d k Hwf Hk) as Hir.
         destruct (zget_in_range (buf d) (idx d k) Hir) as [x Hx].
         rewrite Hi, Hx. eexists x, _. split; [rewrite window_get by assumption; exact Hx|].
-        split; [reflexivity|]. split; [exact Hg|].
+        split; [reflexivity|]. split; [reflexivity|].
         right. split; [exact Hl|]. cbn [it_done it_i orb].
         destruct (Z.eqb_spec (idx d k) (back d)) as [Hb|Hb].
         * pose proof (idx_back_inv d k Hwf Hk Hb). lia.
@@ -939,6 +945,10 @@ Section DequeProofs.
 
   Definition Inv (s : st) : Prop := wf (sd s) /\ clean (sd s) /\ gens_ok (sd s) (sits s).
 
+  Ltac fin :=
+    repeat split; try assumption; try reflexivity; try (left; reflexivity);
+    try (right; assumption); try (intros; assumption); try (intros; congruence).
+
   Lemma step_seq d its o : wf d -> clean d -> seq_op o = true ->
     exists d', step (mkSt d its) o = (mkSt d' its, snd (sstep (window d) o)) /\
       wf d' /\ clean d' /\ window d' = fst (sstep (window d) o) /\
@@ -949,47 +959,28 @@ Section DequeProofs.
     destruct o as [x|x| | | | |i|i x| |n|n| | |j]; try discriminate Hseq;
       cbn [Model.step sstep sd sits adds_or_removes].
     - destruct (push_front_ok x d Hwf Hcl) as (d' & Hp & Hwf' & Hcl' & Hw' & Hg').
-      rewrite Hp. exists d'. cbn [fst snd].
-      split; [reflexivity|]. repeat split; try assumption. right; exact Hg'.
+      rewrite Hp. exists d'. cbn [fst snd]. fin.
     - destruct (push_back_ok x d Hwf Hcl) as (d' & Hp & Hwf' & Hcl' & Hw' & Hg').
-      rewrite Hp. exists d'. cbn [fst snd].
-      split; [reflexivity|]. repeat split; try assumption. right; exact Hg'.
-    - pose proof (pop_front_spec d Hwf Hcl) as Hp. destruct (window d) as [|x w].
-      + rewrite Hp. exists d. cbn [fst snd].
-        split; [reflexivity|]. repeat split; try assumption; [left; reflexivity|congruence].
-      + destruct Hp as (d' & Hp & Hwf' & Hcl' & Hw' & Hg'). rewrite Hp. exists d'. cbn [fst snd].
-        split; [reflexivity|]. repeat split; try assumption. right; exact Hg'.
+      rewrite Hp. exists d'. cbn [fst snd]. fin.
+    - pose proof (pop_front_spec d Hwf Hcl) as Hp. destruct (window d) as [|x w] eqn:Ew.
+      + rewrite Hp. exists d. cbn [fst snd]. fin.
+      + destruct Hp as (d' & Hp & Hwf' & Hcl' & Hw' & Hg'). rewrite Hp. exists d'. cbn [fst snd]. fin.
     - pose proof (pop_back_spec d Hwf Hcl) as Hp. destruct (rev (window d)) as [|x r].
-      + rewrite Hp. exists d. cbn [fst snd].
-        split; [reflexivity|]. repeat split; try assumption; [left; reflexivity|congruence].
-      + destruct Hp as (d' & Hp & Hwf' & Hcl' & Hw' & Hg'). rewrite Hp. exists d'. cbn [fst snd].
-        split; [reflexivity|]. repeat split; try assumption. right; exact Hg'.
-    - rewrite (peek_front_spec d Hwf). exists d. destruct (window d) as [|x w]; cbn [fst snd];
-        (split; [reflexivity|]); repeat split; try assumption; try (left; reflexivity);
-        discriminate.
-    - rewrite (peek_back_spec d Hwf). exists d. destruct (rev (window d)) as [|x r]; cbn [fst snd];
-        (split; [reflexivity|]); repeat split; try assumption; try (left; reflexivity);
-        discriminate.
-    - rewrite (item_spec i d Hwf). exists d. destruct (zget (window d) i) as [x|]; cbn [fst snd];
-        (split; [reflexivity|]); repeat split; try assumption; try (left; reflexivity);
-        discriminate.
+      + rewrite Hp. exists d. cbn [fst snd]. fin.
+      + destruct Hp as (d' & Hp & Hwf' & Hcl' & Hw' & Hg'). rewrite Hp. exists d'. cbn [fst snd]. fin.
+    - rewrite (peek_front_spec d Hwf). exists d. destruct (window d) as [|x w]; cbn [fst snd]; fin.
+    - rewrite (peek_back_spec d Hwf). exists d. destruct (rev (window d)) as [|x r]; cbn [fst snd]; fin.
+    - rewrite (item_spec i d Hwf). exists d. destruct (zget (window d) i) as [x|]; cbn [fst snd]; fin.
     - pose proof (set_spec i x d Hwf Hcl) as Hp. destruct (zset (window d) i x) as [l'|].
-      + destruct Hp as (d' & Hp & Hwf' & Hcl' & Hw' & Hg'). rewrite Hp. exists d'. cbn [fst snd].
-        split; [reflexivity|]. repeat split; try assumption. right; exact Hg'.
-      + rewrite Hp. exists d. cbn [fst snd].
-        split; [reflexivity|]. repeat split; try assumption; [left; reflexivity|discriminate].
-    - exists d. cbn [fst snd]. rewrite (window_len d Hwf).
-      split; [reflexivity|]. repeat split; try assumption; [left; reflexivity|discriminate].
+      + destruct Hp as (d' & Hp & Hwf' & Hcl' & Hw' & Hg'). rewrite Hp. exists d'. cbn [fst snd]. fin.
+      + rewrite Hp. exists d. cbn [fst snd]. fin.
+    - exists d. cbn [fst snd]. rewrite (window_len d Hwf). fin.
     - destruct (grow_ok n d Hwf Hcl) as (Hwf' & Hcl' & Hw' & Hg').
-      exists (grow n d). cbn [fst snd].
-      split; [reflexivity|]. repeat split; try assumption. discriminate.
+      exists (grow n d). cbn [fst snd]. fin.
     - pose proof (shrink_ok n d Hwf Hcl) as Hp. destruct (n <? 0).
-      + rewrite Hp. exists d. cbn [fst snd].
-        split; [reflexivity|]. repeat split; try assumption; [left; reflexivity|discriminate].
-      + destruct Hp as (d' & Hp & Hwf' & Hcl' & Hw' & Hg'). rewrite Hp. exists d'. cbn [fst snd].
-        split; [reflexivity|]. repeat split; try assumption. discriminate.
-    - rewrite (drain_iterate d Hwf). exists d. cbn [fst snd].
-      split; [reflexivity|]. repeat split; try assumption; [left; reflexivity|discriminate].
+      + rewrite Hp. exists d. cbn [fst snd]. fin.
+      + destruct Hp as (d' & Hp & Hwf' & Hcl' & Hw' & Hg'). rewrite Hp. exists d'. cbn [fst snd]. fin.
+    - rewrite (drain_iterate d Hwf). exists d. cbn [fst snd]. fin.
   Qed.
 
   Lemma gens_ok_mono d d' its : gens_ok d its -> gen d <= gen d' -> gens_ok d' its.
@@ -1030,4 +1021,281 @@ Section DequeProofs.
           split; [|split; [reflexivity|split; [discriminate|split; [left; reflexivity|discriminate]]]].
           split; [exact Hwf|]. split; [exact Hcl|]. exact Hg.
   Qed.
+
+  (* ------------------------------------------------------------------ *)
+  (* Histories                                                          *)
+  (* ------------------------------------------------------------------ *)
+  Lemma Inv_st0 : Inv (@st0 T).
+  Proof.
+    split; [|split].
+    - cbn. split; reflexivity.
+    - intros j Hj. cbn in Hj. lia.
+    - constructor.
+  Qed.
+
+  Lemma run_state_inv ops : forall s, Inv s ->
+    Inv (run_state s ops) /\ window (sd (run_state s ops)) = srun_state (window (sd s)) ops.
+  Proof.
+    induction ops as [|o ops IH]; intros s HI; cbn [Model.run_state srun_state].
+    - split; [exact HI|reflexivity].
+    - destruct (step_inv s o HI) as (HI' & Hw & _). destruct (IH _ HI') as [H1 H2].
+      split; [exact H1|]. rewrite H2, Hw. reflexivity.
+  Qed.
+
+  Lemma run_refines ops : forall s, Inv s -> forallb seq_op ops = true ->
+    run s ops = srun (window (sd s)) ops.
+  Proof.
+    induction ops as [|o ops IH]; intros s HI Hall; cbn [Model.run srun]; [reflexivity|].
+    cbn [forallb] in Hall. apply andb_true_iff in Hall. destruct Hall as [Ho Hall].
+    destruct (step_inv s o HI) as (HI' & Hw & Hout & _). specialize (Hout Ho).
+    destruct (step s o) as [s' r]. destruct (sstep (window (sd s)) o) as [l' r'].
+    cbn [fst snd] in *. subst r' l'. f_equal. apply IH; assumption.
+  Qed.
+
+  Lemma reach_inv ops : Inv (run_state st0 ops).
+  Proof. apply run_state_inv. exact Inv_st0. Qed.
+
+  Lemma sstep_panic (l : list T) o : seq_op o = true ->
+    (snd (sstep l o) = OPanic <-> must_panic l o = true).
+  Proof.
+    intros Hs. destruct o as [x|x| | | | |i|i x| |n|n| | |j]; try discriminate Hs;
+      cbn [sstep must_panic].
+    - cbn; split; discriminate.
+    - cbn; split; discriminate.
+    - destruct l; cbn; split; congruence.
+    - destruct l as [|a l]; [cbn; split; reflexivity|]. cbn [rev].
+      destruct (rev l ++ [a]) as [|y r] eqn:E; [destruct (rev l); discriminate E|].
+      cbn; split; discriminate.
+    - destruct l; cbn; split; congruence.
+    - destruct l as [|a l]; [cbn; split; reflexivity|]. cbn [rev].
+      destruct (rev l ++ [a]) as [|y r] eqn:E; [destruct (rev l); discriminate E|].
+      cbn; split; discriminate.
+    - destruct (zget l i) as [x|] eqn:E; cbn [snd].
+      + apply zget_Some_range in E. split; [discriminate|]. intros Hb.
+        apply orb_true_iff in Hb. destruct Hb as [Hb|Hb]; [apply Z.ltb_lt in Hb|apply Z.leb_le in Hb]; lia.
+      + apply zget_none_inv in E. split; [intros _|reflexivity].
+        apply orb_true_iff. destruct E as [E|E]; [left; apply Z.ltb_lt|right; apply Z.leb_le]; exact E.
+    - unfold zset. destruct ((i <? 0) || (zlen l <=? i)); cbn; split; congruence.
+    - cbn; split; discriminate.
+    - cbn; split; discriminate.
+    - destruct (n <? 0); cbn; split; congruence.
+    - cbn; split; discriminate.
+  Qed.
+
+  Lemma step_panic_same s o : seq_op o = true -> snd (step s o) = OPanic -> fst (step s o) = s.
+  Proof.
+    destruct s as [d its]. intros Hs.
+    destruct o as [x|x| | | | |i|i x| |n|n| | |j]; try discriminate Hs; cbn [Model.step sd sits];
+      repeat match goal with
+             | |- context [match ?e with _ => _ end] => destruct e
+             end; cbn [fst snd]; intros Hp; try discriminate Hp; reflexivity.
+  Qed.
+
+  (* ---- C04 ---- *)
+  Lemma refinement_sec : forall ops,
+      forallb seq_op ops = true -> run st0 ops = srun [] ops.
+  Proof using All.
+    intros ops Hall. apply (run_refines ops st0 Inv_st0 Hall).
+  Qed.
+
+  Lemma abs_sec : forall ops, window (sd (run_state st0 ops)) = srun_state [] ops.
+  Proof using All.
+    intros ops. apply (run_state_inv ops st0 Inv_st0).
+  Qed.
+
+  Lemma grow_shrink_preserve_sec : forall ops n,
+      let d := sd (run_state st0 ops) in
+      window (grow n d) = window d /\
+      (forall d', shrink n d = Ok d' -> window d' = window d) /\
+      (shrink n d = Panic PNeg <-> n < 0).
+  Proof using All.
+    intros ops n d. destruct (reach_inv ops) as (Hwf & Hcl & _). fold d in Hwf, Hcl.
+    pose proof (shrink_ok n d Hwf Hcl) as Hs.
+    split; [apply grow_ok; assumption|]. split.
+    - intros d' Hd'. destruct (Z.ltb_spec n 0) as [Hn|Hn].
+      + rewrite Hs in Hd'. discriminate Hd'.
+      + destruct Hs as (d'' & Hs & _ & _ & Hw & _). rewrite Hs in Hd'.
+        inversion Hd'; subst d''. exact Hw.
+    - destruct (Z.ltb_spec n 0) as [Hn|Hn].
+      + split; [intros _; exact Hn|intros _; exact Hs].
+      + destruct Hs as (d'' & Hs & _). rewrite Hs. split; [discriminate|lia].
+  Qed.
+
+  Lemma panics_exact_sec : forall ops o,
+      seq_op o = true ->
+      let s := run_state st0 ops in
+      (snd (step s o) = OPanic <-> must_panic (window (sd s)) o = true) /\
+      (snd (step s o) = OPanic -> fst (step s o) = s).
+  Proof using All.
+    intros ops o Hs s. pose proof (reach_inv ops) as HI. fold s in HI.
+    destruct (step_inv s o HI) as (_ & _ & Hout & _).
+    split; [rewrite (Hout Hs); apply sstep_panic; exact Hs|apply step_panic_same; exact Hs].
+  Qed.
+
+  Lemma no_retention_sec : forall ops, clean (sd (run_state st0 ops)).
+  Proof using All.
+    intros ops. apply (reach_inv ops).
+  Qed.
+
+  (* ---- C15 ---- *)
+  Lemma iter_unchanged_sec : forall ops,
+      let d := sd (run_state st0 ops) in
+      drain (S (Z.to_nat (len d))) d (iterate d) = Some (Ok (window d)).
+  Proof using All.
+    intros ops d. apply drain_iterate. apply (reach_inv ops).
+  Qed.
+
+  Lemma iter_add_remove_panics_sec : forall ops o it,
+      let s := run_state st0 ops in
+      adds_or_removes o = true ->
+      snd (step s o) <> OPanic ->
+      In it (sits (fst (step s o))) ->
+      fst (iter_next (sd (fst (step s o))) it) = Panic PModified.
+  Proof using All.
+    intros ops o it s Ha Hnp Hin. pose proof (reach_inv ops) as HI. fold s in HI.
+    destruct (step_inv s o HI) as (_ & _ & _ & _ & Har).
+    destruct (Har Ha Hnp) as [Hlt Hsits]. rewrite Hsits in Hin.
+    destruct HI as (_ & _ & Hg). unfold gens_ok in Hg. rewrite Forall_forall in Hg.
+    specialize (Hg it Hin). cbn beta in Hg.
+    rewrite iter_next_stale by lia. reflexivity.
+  Qed.
+
+  Notation ghost := (@ghost T).
+  Notation grun := (grun zero minSize growMul).
+
+  Definition ghost_rel d (it : iter) (g : ghost) : Prop :=
+    ghost_ok g /\ it_gen it <= gen d /\
+    (it_gen it = gen d -> g_snap g = window d /\ iter_at d it (zlen (g_yield g))).
+
+  Definition GInv (s : st) (gs : list ghost) : Prop :=
+    Inv s /\ Forall2 (ghost_rel (sd s)) (sits s) gs.
+
+  Lemma ghost_rel_mono d d' it g :
+    (d' = d \/ gen d < gen d') -> ghost_rel d it g -> ghost_rel d' it g.
+  Proof.
+    intros [He|Hlt] (Hok & Hle & Hf); [subst d'; split; [exact Hok|split; [exact Hle|exact Hf]]|].
+    split; [exact Hok|]. split; [lia|]. intros Heq. lia.
+  Qed.
+
+  Lemma ghost_step_seq (s : st) (gs : list ghost) o : seq_op o = true -> ghost_step s gs o = gs.
+  Proof. intros Hs. destruct o; try reflexivity; discriminate Hs. Qed.
+
+  Lemma gstep_inv s gs o : GInv s gs -> GInv (fst (step s o)) (ghost_step s gs o).
+  Proof.
+    intros [HI HF]. pose proof (step_inv s o HI) as (HI' & _). split; [exact HI'|].
+    destruct s as [d its]. destruct HI as (Hwf & Hcl & Hg). cbn [sd sits] in *.
+    destruct (seq_op o) eqn:Es.
+    - rewrite (ghost_step_seq _ gs o Es).
+      destruct (step_seq d its o Hwf Hcl Es) as (d' & Hs & _ & _ & _ & Hg' & _).
+      rewrite Hs. cbn [fst sd sits].
+      apply (Forall2_weaken (ghost_rel d)); [|exact HF].
+      intros it g Hrel. apply (ghost_rel_mono d); assumption.
+    - destruct o as [x|x| | | | |i|i x| |n|n| | |j]; try discriminate Es.
+      + cbn [Model.step ghost_step sd sits fst]. apply Forall2_app; [exact HF|].
+        constructor; [|constructor]. split; [|split].
+        * split; [exists (window d); reflexivity|]. cbn. discriminate.
+        * cbn. lia.
+        * intros _. cbn [g_snap g_yield]. split; [reflexivity|]. apply iterate_at. exact Hwf.
+      + cbn [Model.step ghost_step sd sits]. destruct (nth_error its j) as [it|] eqn:En; [|exact HF].
+        destruct (Forall2_nth _ _ _ j it HF En) as (g & Eg & Hok & Hle & Hfresh). rewrite Eg.
+        destruct (Z.eq_dec (it_gen it) (gen d)) as [He|Hne].
+        * destruct (Hfresh He) as [Hsnap Hat].
+          destruct (iter_next_fresh d it _ Hwf He Hat)
+            as [(Hk & x & it' & Hx & Hnx & Hg' & Hat')|(Hk & Hnx)];
+            rewrite Hnx; cbn [fst snd sd sits]; (apply Forall2_upd; [exact HF|]).
+          -- destruct Hok as [Hpre Hend]. split; [|split].
+             ++ split; cbn [g_snap g_yield g_ended].
+                ** apply prefix_snoc; [exact Hpre|]. rewrite Hsnap. exact Hx.
+                ** intros Hen. exfalso. apply Hend in Hen. rewrite Hen, Hsnap in Hk.
+                   rewrite (window_len d Hwf) in Hk. lia.
+             ++ lia.
+             ++ intros _. cbn [g_snap g_yield]. split; [exact Hsnap|].
+                rewrite zlen_snoc. exact Hat'.
+          -- destruct Hok as [Hpre Hend]. split; [|split].
+             ++ split; cbn [g_snap g_yield g_ended]; [exact Hpre|]. intros _.
+                apply prefix_full; [exact Hpre|]. rewrite Hsnap, (window_len d Hwf). exact Hk.
+             ++ exact Hle.
+             ++ intros _. cbn [g_snap g_yield]. split; [exact Hsnap|exact Hat].
+        * rewrite (iter_next_stale d it Hne). cbn [fst snd sd sits].
+          apply Forall2_upd; [exact HF|]. split; [exact Hok|]. split; [exact Hle|].
+          intros Heq. contradiction.
+  Qed.
+
+  Lemma grun_inv ops : forall s gs, GInv s gs ->
+    GInv (fst (grun s gs ops)) (snd (grun s gs ops)).
+  Proof.
+    induction ops as [|o ops IH]; intros s gs HG; cbn [Spec.grun]; [exact HG|].
+    apply IH. apply gstep_inv. exact HG.
+  Qed.
+
+  Lemma ghost_rel_ok d its gs : Forall2 (ghost_rel d) its gs -> Forall ghost_ok gs.
+  Proof.
+    intros HF. induction HF as [|it g its gs Hr _ IH]; constructor; [apply Hr|exact IH].
+  Qed.
+
+  Lemma iter_ghost_ok_sec : forall ops, Forall ghost_ok (snd (grun st0 [] ops)).
+  Proof using All.
+    intros ops. assert (HG : GInv st0 []) by (split; [exact Inv_st0|constructor]).
+    destruct (grun_inv ops st0 [] HG) as [_ HF]. exact (ghost_rel_ok _ _ _ HF).
+  Qed.
 End DequeProofs.
+
+(* ------------------------------------------------------------------ *)
+(* Exported statements (the exact shapes used by Properties/C04.v and   *)
+(* Properties/C15_deque.v)                                             *)
+(* ------------------------------------------------------------------ *)
+Lemma deque_refinement {T : Type} (zero : T) (minSize growMul : Z)
+  (Hmin : 1 <= minSize) (Hgrow : 2 <= growMul) :
+  forall ops, forallb seq_op ops = true ->
+              run zero minSize growMul st0 ops = srun [] ops.
+Proof. exact (@refinement_sec T zero minSize growMul Hmin Hgrow). Qed.
+
+Lemma deque_abs {T : Type} (zero : T) (minSize growMul : Z)
+  (Hmin : 1 <= minSize) (Hgrow : 2 <= growMul) :
+  forall ops, window (sd (run_state zero minSize growMul st0 ops)) = srun_state [] ops.
+Proof. exact (@abs_sec T zero minSize growMul Hmin Hgrow). Qed.
+
+Lemma deque_grow_shrink_preserve {T : Type} (zero : T) (minSize growMul : Z)
+  (Hmin : 1 <= minSize) (Hgrow : 2 <= growMul) :
+  forall ops n,
+    let d := sd (run_state zero minSize growMul st0 ops) in
+    window (grow zero n d) = window d /\
+    (forall d', shrink zero n d = Ok d' -> window d' = window d) /\
+    (shrink zero n d = Panic PNeg <-> n < 0).
+Proof. exact (@grow_shrink_preserve_sec T zero minSize growMul Hmin Hgrow). Qed.
+
+Lemma deque_panics_exact {T : Type} (zero : T) (minSize growMul : Z)
+  (Hmin : 1 <= minSize) (Hgrow : 2 <= growMul) :
+  forall ops o,
+    seq_op o = true ->
+    let s := run_state zero minSize growMul st0 ops in
+    (snd (step zero minSize growMul s o) = OPanic <-> must_panic (window (sd s)) o = true) /\
+    (snd (step zero minSize growMul s o) = OPanic -> fst (step zero minSize growMul s o) = s).
+Proof. exact (@panics_exact_sec T zero minSize growMul Hmin Hgrow). Qed.
+
+Lemma deque_no_retention {T : Type} (zero : T) (minSize growMul : Z)
+  (Hmin : 1 <= minSize) (Hgrow : 2 <= growMul) :
+  forall ops, clean zero (sd (run_state zero minSize growMul st0 ops)).
+Proof. exact (@no_retention_sec T zero minSize growMul Hmin Hgrow). Qed.
+
+Lemma deque_iter_unchanged {T : Type} (zero : T) (minSize growMul : Z)
+  (Hmin : 1 <= minSize) (Hgrow : 2 <= growMul) :
+  forall ops,
+    let d := sd (run_state zero minSize growMul st0 ops) in
+    drain (S (Z.to_nat (len d))) d (iterate d) = Some (Ok (window d)).
+Proof. exact (@iter_unchanged_sec T zero minSize growMul Hmin Hgrow). Qed.
+
+Lemma deque_iter_ghost_ok {T : Type} (zero : T) (minSize growMul : Z)
+  (Hmin : 1 <= minSize) (Hgrow : 2 <= growMul) :
+  forall ops, Forall ghost_ok (snd (grun zero minSize growMul st0 [] ops)).
+Proof. exact (@iter_ghost_ok_sec T zero minSize growMul Hmin Hgrow). Qed.
+
+Lemma deque_iter_add_remove_panics {T : Type} (zero : T) (minSize growMul : Z)
+  (Hmin : 1 <= minSize) (Hgrow : 2 <= growMul) :
+  forall ops o it,
+    let s := run_state zero minSize growMul st0 ops in
+    adds_or_removes o = true ->
+    snd (step zero minSize growMul s o) <> OPanic ->
+    In it (sits (fst (step zero minSize growMul s o))) ->
+    fst (iter_next (sd (fst (step zero minSize growMul s o))) it) = Panic PModified.
+Proof. exact (@iter_add_remove_panics_sec T zero minSize growMul Hmin Hgrow). Qed.
